@@ -10,7 +10,8 @@ From V Require Import Base.Bytes Base.Res Gen.StrLeafGen Gen.Consts Gen.Special 
      Model.Scan Model.Strings Model.Entity Model.LinkUrl Model.AutolinkLeaf Model.Spx Model.Ast Model.Inlines
      Proofs.StrLeafProofs Proofs.StrLeafEntity Proofs.StrLeafParse
      Proofs.InlinesProofs Proofs.InlinesMemo Proofs.InlinesTotalAutolink Proofs.InlinesTotalFuel Proofs.InlinesTotal
-     Proofs.InertInlines Proofs.InlinesTotal2 Proofs.InlinesTotal2Pe Proofs.InlinesTotal2Fuel Proofs.InlinesTotal2Inv.
+     Proofs.InertInlines Proofs.InlinesTotal2 Proofs.InlinesTotal2Pe Proofs.InlinesTotal2Fuel Proofs.InlinesTotal2Inv
+     Proofs.InlinesTotal2Scan.
 Import ListNotations.
 Local Open Scope string_scope.
 Local Open Scope list_scope.
@@ -34,17 +35,7 @@ Definition remaining : list string :=
     (* (T) the Text siblings in front of an autolink spell the scheme *)
     "inlines.rs:handle_autolink_with:node.last_child().unwrap()";
     "inlines.rs:handle_autolink_with:expected text node before autolink colon";
-    "inlines.rs:handle_autolink_with:end.column-reverse";
-    (* (P) scanner matches stay inside the slice they were given *)
-    "inlines.rs:handle_pointy_brace:uri";
-    "inlines.rs:handle_pointy_brace:email";
-    "inlines.rs:handle_pointy_brace:contents";
-    "inlines.rs:make_autolink:end_column-1";
-    "inlines.rs:handle_close_bracket:input[endurl..]";
-    "inlines.rs:handle_close_bracket:input[starttitle..]";
-    "inlines.rs:handle_close_bracket:input[endtitle..]";
-    "inlines.rs:handle_close_bracket:title";
-    "strings.rs:clean_title:title[1..title_len - 1]" ].
+    "inlines.rs:handle_autolink_with:end.column-reverse" ].
 
 Definition allowed (site : string) : bool := existsb (String.eqb site) remaining.
 
@@ -100,8 +91,11 @@ Proof.
   unfold slice, len. destruct (_ || _) eqn:E; [discriminate|]. intro H. inversion H.
   apply orb_false_iff in E. destruct E as [E1 E2]. apply Nat.ltb_ge in E1. apply Nat.ltb_ge in E2. auto.
 Qed.
-Lemma slice_panic inp site a b site' : slice inp site a b = Panic site' -> site' = site.
-Proof. unfold slice. destruct (_ || _); [|discriminate]. intro H. inversion H. reflexivity. Qed.
+Lemma slice_panic inp site a b site' : slice inp site a b = Panic site' -> site' = site /\ (b < a \/ List.length inp < b).
+Proof.
+  unfold slice, len. destruct (_ || _) eqn:E; [|discriminate]. intro H. inversion H. split; [reflexivity|].
+  apply orb_true_iff in E. destruct E as [E|E]; apply Nat.ltb_lt in E; auto.
+Qed.
 
 (* ------------------------------------------------------------------ inversion of `= Panic site` *)
 Ltac leafp H :=
@@ -123,7 +117,7 @@ Ltac invp1 :=
   | H : usub _ _ _ = Ok _ |- _ => apply usub_ok in H; destruct H
   | H : usub _ _ _ = Panic _ |- _ => apply usub_panic in H; destruct H as [-> H]
   | H : slice _ _ _ _ = Ok _ |- _ => apply slice_ok in H; destruct H as (? & ? & ?)
-  | H : slice _ _ _ _ = Panic _ |- _ => apply slice_panic in H; subst
+  | H : slice _ _ _ _ = Panic _ |- _ => apply slice_panic in H; destruct H as [-> H]
   | H : end_col _ = Panic _ |- _ => apply end_col_panic in H
   | H : Entity.unescape _ = Panic _ |- _ => leafp H
   | H : Entity.unescape_html _ = Panic _ |- _ => leafp H
@@ -179,6 +173,38 @@ Ltac site_or_absurd :=
                 | match goal with
                   | E : peek_is _ ?p _ = true, E0 : peek _ ?p = None |- _ => unfold peek_is in E; rewrite E0 in E; discriminate E
                   end ] ].
+
+(* ------------------------------------------------------------------ what the scanners answer *)
+Lemma opt0_spacechars_le x : opt0 (scan_spacechars x) <= List.length x.
+Proof. destruct (scan_spacechars x) as [m|] eqn:E; cbn [opt0]; [apply scan_spacechars_bound in E|]; lia. Qed.
+Lemma opt0_link_title_le x :
+  opt0 (scan_link_title x) <= List.length x /\ (opt0 (scan_link_title x) = 0 \/ 2 <= opt0 (scan_link_title x)).
+Proof. destruct (scan_link_title x) as [m|] eqn:E; cbn [opt0]; [apply scan_link_title_bound in E|]; lia. Qed.
+Lemma manual_scan_lt x url n : manual_scan_link_url x = Ok (Some (url, n)) -> n < List.length x.
+Proof. intro H. destruct (manual_scan_link_url_total x) as [r [E B]]. rewrite E in H. inversion H; subst. exact B. Qed.
+
+Lemma some_inj {A} (a b : A) : Some a = Some b -> a = b.
+Proof. intro H. inversion H. reflexivity. Qed.
+
+Ltac scanfacts :=
+  repeat match goal with
+         | H : scan_html_comment _ = Some _ |- _ => apply scan_html_comment_bound in H; destruct H
+         | H : scan_html_tag _ = Some _ |- _ => apply scan_html_tag_bound in H; destruct H
+         | H : scan_autolink_uri _ = Some _ |- _ => apply scan_autolink_uri_bound in H; destruct H
+         | H : scan_autolink_email _ = Some _ |- _ => apply scan_autolink_email_bound in H; destruct H
+         | H : manual_scan_link_url _ = Ok (Some (_, _)) |- _ => apply manual_scan_lt in H
+         | H : context [opt0 (scan_spacechars ?x)] |- _ =>
+           lazymatch goal with
+           | K : opt0 (scan_spacechars x) <= _ |- _ => fail
+           | _ => pose proof (opt0_spacechars_le x)
+           end
+         | H : context [opt0 (scan_link_title ?x)] |- _ =>
+           lazymatch goal with
+           | K : opt0 (scan_link_title x) <= _ /\ _ |- _ => fail
+           | _ => pose proof (opt0_link_title_le x)
+           end
+         end;
+  rewrite ?skipn_length in *.
 
 (* ------------------------------------------------------------------ the invariants *)
 Section Inv.
@@ -794,10 +820,10 @@ Qed.
 
 (* ------------------------------------------------------------------ handle_pointy_brace *)
 Lemma make_autolink_sites s url e sc ec site :
-  CInv s -> pos s <= sc -> pos s <= ec ->
+  CInv s -> pos s <= sc -> pos s <= ec -> 1 <= ec ->
   make_autolink s url e sc ec = Panic site -> allowed site = true.
 Proof.
-  intros (C1 & C2 & _) A B H. unfold make_autolink in H. invp; simp_st; try site_or_absurd.
+  intros (C1 & C2 & _) A B B1 H. unfold make_autolink in H. invp; simp_st; try site_or_absurd.
 Qed.
 
 Lemma handle_pointy_brace_sites s c site :
@@ -807,16 +833,28 @@ Proof.
   intros C [L1 L2] Ec H. pose proof C as (C1 & C2 & C3). pose proof (nth_lt _ _ Ec) as Hlt.
   unfold handle_pointy_brace in H. unfold from in H.
   destruct (Nat.ltb (len inp) (S (pos s))) eqn:E0; [apply Nat.ltb_lt in E0; unfold len in E0; lia|]. cbn [bind] in H.
-  destruct (scan_autolink_uri (skipn (S (pos s)) inp)) as [m|].
-  { invp; simp_st; try site_or_absurd.
+  destruct (scan_autolink_uri (skipn (S (pos s)) inp)) as [m|] eqn:Euri.
+  { apply scan_autolink_uri_bound in Euri. rewrite skipn_length in Euri. destruct Euri as [Em1 Em2].
+    invp; simp_st; try site_or_absurd.
     all: match goal with Hm : make_autolink _ _ _ _ _ = Panic _ |- _ =>
-           eapply make_autolink_sites in Hm; [exact Hm|exact C|simp_st; lia|simp_st; lia] end. }
-  destruct (scan_autolink_email (skipn (S (pos s)) inp)) as [m|].
-  { invp; simp_st; try site_or_absurd.
+           eapply make_autolink_sites in Hm; [exact Hm|exact C|simp_st; lia|simp_st; lia|simp_st; lia] end. }
+  destruct (scan_autolink_email (skipn (S (pos s)) inp)) as [m|] eqn:Eem.
+  { apply scan_autolink_email_bound in Eem. rewrite skipn_length in Eem. destruct Eem as [Em1 Em2].
+    invp; simp_st; try site_or_absurd.
     all: match goal with Hm : make_autolink _ _ _ _ _ = Panic _ |- _ =>
-           eapply make_autolink_sites in Hm; [exact Hm|exact C|simp_st; lia|simp_st; lia] end. }
-  match type of H with (let '(_, _) := ?x in _) = _ => destruct x as [ml [[[fc fd] fp] fm]] end.
-  destruct ml as [m|].
+           eapply make_autolink_sites in Hm; [exact Hm|exact C|simp_st; lia|simp_st; lia|simp_st; lia] end. }
+  match type of H with (let '(_, _) := ?x in _) = _ => destruct x as [ml [[[fc fd] fp] fm]] eqn:Ebig end.
+  assert (forall m, ml = Some m -> S (pos s) + m <= List.length inp) as Hml.
+  { intros m ->. clear H. revert Ebig.
+    repeat match goal with
+           | |- (if ?b then _ else _) = _ -> _ => let E := fresh "E" in destruct b eqn:E
+           | |- match ?x with _ => _ end = _ -> _ => let E := fresh "E" in destruct x eqn:E
+           end; intro Ebig; try discriminate Ebig; apply (f_equal fst) in Ebig; cbn [fst] in Ebig;
+      try (apply some_inj in Ebig; subst m); bools;
+      repeat match goal with
+             | K : peek_eq inp _ _ = true |- _ => apply peek_eq_some in K; apply nth_lt in K
+             end; scanfacts; unfold len in *; lia. }
+  destruct ml as [m|]; [specialize (Hml m eq_refl)|clear Hml].
   - invp; simp_st; try site_or_absurd.
     match goal with Ha : adjust_node_newlines _ _ _ _ _ _ = Panic _ |- _ => eapply adjust_sites in Ha; [exact Ha| | | |] end.
     + simp_st. lia.
@@ -1073,11 +1111,16 @@ Proof.
 Qed.
 
 (* ------------------------------------------------------------------ brackets *)
-Lemma clean_title_site t site : clean_title t = Panic site -> allowed site = true.
+Lemma clean_title_panic_len t site : clean_title t = Panic site -> List.length t = 1.
 Proof.
   unfold clean_title. destruct t as [|a t]; [discriminate|]. cbv zeta. intro H.
-  invp; try site_or_absurd.
-  all: exfalso; match goal with E : Strings.unescape _ = Panic _ |- _ => rewrite unescape_is_spec in E; discriminate E end.
+  match type of H with bind ?r _ = _ => destruct r as [b|?|] eqn:E; cbn [bind] in H end.
+  - rewrite unescape_is_spec in H. discriminate H.
+  - revert E. repeat match goal with |- (if ?c then _ else _) = _ -> _ => let E0 := fresh "Q" in destruct c eqn:E0 end; intro E.
+    + bools; cbn [List.length] in *; lia.
+    + exfalso. revert E. apply unescape_html_nopanic.
+    + exfalso. revert E. apply unescape_html_nopanic.
+  - discriminate H.
 Qed.
 
 Lemma cbm_sites o s img url title site :
@@ -1149,11 +1192,11 @@ Proof.
     [eapply (close_text_sites (pop_bracket s)); [exact C|exact H]|].
   match type of H with bind ?r _ = _ => destruct r as [il|?|] eqn:Eil; cbn [bind] in H; [| |discriminate H] end.
   2:{ inversion H; subst. clear H. unfold from in Eil.
-      repeat first
-        [ match goal with
-          | E : clean_title _ = Panic _ |- _ => eapply clean_title_site; exact E
-          end
-        | invp1 | inv1 ]; try site_or_absurd. }
+      repeat first [ invp1 | inv1 ]; subst;
+      try match goal with
+          | E : clean_title _ = Panic _ |- _ => apply clean_title_panic_len in E; rewrite firstn_length, skipn_length in E
+          end;
+      scanfacts; try site_or_absurd. }
   destruct il as [[[p' cu] ct]|].
   - match type of H with bind ?r _ = _ => destruct r as [s1|?|] eqn:Ec; cbn [bind] in H; [discriminate H| |discriminate H] end.
     inversion H; subst. eapply cbm_sites; [| | |exact Ec].
